@@ -545,6 +545,37 @@ def oracle(case, hist, nevents):
             if "ts" in op and op["ts"] not in ok and op["ts"] in cuts:
                 stats["ambiguous_cut"] += 1
             done.append((op["ret"], min(ok)))
+    if strong and not weak:
+        # a single (atomic) write seen by one read and then NOT seen by a read that began after the first
+        # returned: no total order of the writes respecting real time explains that, whatever the order
+        seen = []                      # (ret, tid/op text, {seq of writes seen}), per read
+        for op in reads:
+            if op["kind"] == "g":
+                kind, val = op.get("got", ("err", 0))
+                obs = {op["arg"]: (val if kind == "val" else None)}
+            else:
+                rng = range(case["keys"]) if op["arg"] is None else range(op["arg"][0], op["arg"][1] + 1)
+                got = dict(op["pairs"])
+                obs = {k: got.get(k) for k in rng}
+            sets = {k: [ts for ts in cuts if value_at(k, ts) == v] for k, v in obs.items()}
+            sees, misses = set(), set()
+            for w in writes:
+                for k, _ in w["batch"]:
+                    if k in sets and sets[k]:
+                        if min(sets[k]) >= w["seq"]:
+                            sees.add(w["seq"])
+                        elif max(sets[k]) < w["seq"]:
+                            misses.add(w["seq"])
+            who = "T%d op %d `%s` (events %d..%d)" % (op["tid"], op["idx"], op["str"], op["inv"], op["ret"])
+            for (r0, who0, sees0) in seen:
+                if r0 < op["inv"]:
+                    both = sees0 & misses
+                    if both:
+                        weak.append("write seq %d was observed by %s and then not by %s, which began later" % (min(both), who0, who))
+                        break
+            seen.append((op["ret"], who, sees))
+            if weak:
+                break
     return strong, weak, stats
 
 
